@@ -130,6 +130,20 @@ def make_edge(kind, T, rng, mild=False):
     else:
         P = POINT[T].__name__
         p0, off, p1, z = rand_pose(rng, T, mild), rand_pose(rng, T, mild), rand_pose(rng, P, mild), rand_pose(rng, P, mild)
+        # special offsets: identity, pure rotation (zero lever arm), pure translation
+        r = rng.random()
+        if r < 0.15:
+            off = CLS[T].identity()
+        elif r < 0.4:
+            o = np.asarray(off).copy()
+            o[: len(np.asarray(off.position))] = 0.0
+            off = type(off)(o[:2], o[2]) if T == "PoseSE2" else type(off)(o[:3], o[3:]) if T == "PoseSE3" else type(off)(o)
+        elif r < 0.5 and T in ("PoseSE2", "PoseSE3"):
+            ident = np.asarray(CLS[T].identity())
+            o = np.asarray(off).copy()
+            n = len(np.asarray(off.position))
+            o[n:] = ident[n:]
+            off = type(off)(o[:2], o[2]) if T == "PoseSE2" else type(off)(o[:3], o[3:])
         n = p1.COMPACT_DIMENSIONALITY
         e = EdgeLandmark([0, 1], np.eye(n), z, offset=off, vertices=[Vertex(0, p0), Vertex(1, p1)])
     return e
